@@ -106,6 +106,20 @@ impl Buildpack for TestBuildpack {
         if b["launch"].as_bool().unwrap_or(false) {
             r = r.launch(LaunchBuilder::new().process(ProcessBuilder::new("web".parse().unwrap(), ["run"]).default(true).build()).build());
         }
+        if b["launch"] == "rich" {
+            // several processes, slices and labels -- one label key set twice, as a placeholder refined later --
+            // always added in this order: launch.toml must be the same bytes in every process
+            let mut lb = LaunchBuilder::new();
+            for (i, p) in ["web", "worker", "release", "console"].iter().enumerate() {
+                lb.process(ProcessBuilder::new(p.parse().unwrap(), ["run", p]).default(i == 0).build());
+            }
+            for (k, v) in [("com.example.version", "0"), ("org.a", "1"), ("zz", "2"), ("com.example.version", "1.2.3"), ("b", "3"), ("a.b.c", "4")] {
+                lb.label(libcnb::data::launch::Label { key: k.to_string(), value: v.to_string() });
+            }
+            lb.slice(libcnb::data::launch::Slice { path_globs: vec!["a/**".to_string(), "b".to_string()] });
+            lb.slice(libcnb::data::launch::Slice { path_globs: vec!["c".to_string()] });
+            r = r.launch(lb.build());
+        }
         if b["store"].as_bool().unwrap_or(false) {
             let mut t = toml::Table::new();
             t.insert("k".into(), toml::Value::String("new".into()));
